@@ -1,5 +1,8 @@
 pub mod c01;
+pub mod c02;
+pub mod c02_obs;
 pub mod c03;
+pub mod c04;
 pub mod c05;
 pub mod c06;
 pub mod c07;
@@ -18,6 +21,10 @@ pub mod c17;
 pub mod c18;
 pub mod c19;
 pub mod c20;
+pub mod c21;
+pub mod c22;
+pub mod c23;
+pub mod cli_gen;
 pub mod c24;
 pub mod c25;
 
@@ -26,7 +33,9 @@ use crate::engine::Engine;
 pub fn dispatch(id: &str) -> Option<fn(&mut Engine)> {
     match id {
         "C01" => Some(c01::run),
+        "C02" => Some(c02::run),
         "C03" => Some(c03::run),
+        "C04" => Some(c04::run),
         "C05" => Some(c05::run),
         "C06" => Some(c06::run),
         "C07" => Some(c07::run),
@@ -43,10 +52,13 @@ pub fn dispatch(id: &str) -> Option<fn(&mut Engine)> {
         "C18" => Some(c18::run),
         "C19" => Some(c19::run),
         "C20" => Some(c20::run),
+        "C21" => Some(c21::run),
+        "C22" => Some(c22::run),
+        "C23" => Some(c23::run),
         "C24" => Some(c24::run),
         "C25" => Some(c25::run),
         _ => None,
     }
 }
 
-pub const ALL: &[&str] = &["C01"];
+
